@@ -59,7 +59,7 @@ MC_MULTI_Q = mc("MC_Multi_q", Templates={"B0", "F0"}, MaxAuc=2, Amts={2}, Prices
 
 TC_EXT_Q = mc("TC_Ext_q", Templates={"B5"}, Prices={1, 2}, Amts={2}, MaxBids=3, Tmax=5, Jump=1, CapSet={2, 4}, StartOffsets={0},
               CreateUntil=0, Dur=2, MaxMods=0, Bidders={"u2"})
-TC_FIXED_Q = mc("TC_Fixed_q", WithInvalid=True, RejectSample=8, Templates={"F1", "F3"}, Amts={1, 2, 3}, MaxBids=2, Tmax=7, Jump=2, CapSet={3, 5}, StartOffsets={0, 1}, CreateUntil=1)
+TC_FIXED_Q = mc("TC_Fixed_q", WithInvalid=True, RejectSample=150, Templates={"F1", "F3"}, Amts={1, 2, 3}, MaxBids=2, Tmax=7, Jump=2, CapSet={3, 5}, StartOffsets={0, 1}, CreateUntil=1)
 TC_BATCH_Q = mc("TC_Batch_q", Templates={"B1"}, Prices={1, 2}, Amts={1, 3}, MaxBids=2, Tmax=8, Jump=2, StartOffsets={0, 1}, CreateUntil=1)
 TC_MODIFY_Q = mc("TC_Modify_q", RejectSample=40, Templates={"B0"}, Prices={1, 2, 3}, Amts={1, 3}, MaxBids=2, Tmax=3, Jump=2, StartOffsets={0}, CreateUntil=0,
                  WithInvalid=True, Bidders={"u2"}, CapSet={5})
@@ -148,10 +148,10 @@ MC_BATCH_T = mc("MC_Batch_t", Templates={"B1", "B5"}, Prices={1, 2, 3}, Amts={1,
 MC_LIFE_T = mc("MC_Life_t", D=4, Templates={"Fl", "Bl"}, MaxAuc=2, Amts={2}, Prices={4}, MaxBids=1, Tmax=10, Jump=3, CapSet={5},
                CreateUntil=2, StartOffsets={0, 1}, timeout=2400)
 MC_MULTI_T = mc("MC_Multi_t", Templates={"B0", "F0"}, MaxAuc=2, Amts={2}, Prices={2}, MaxBids=2, Tmax=5, Jump=2, CapSet={3, 5}, timeout=2400)
-MC_GENESIS_T = mc("MC_Genesis_t", Templates={"B1", "F1", "Bx"}, MaxAuc=2, Amts={2}, Prices={2}, MaxBids=2, Tmax=7, Jump=2, WithGenesis=True,
+MC_GENESIS_T = mc("MC_Genesis_t", Templates={"B1", "F1", "Bx"}, MaxAuc=2, Amts={2}, Prices={2}, MaxBids=1, Tmax=7, Jump=2, WithGenesis=True,
                   timeout=2400)
-MC_HOOKS_T = mc("MC_Hooks_t", NL=3, HookVariants=True, Templates={"B0", "F0", "B1"}, Amts={2}, Prices={2}, MaxBids=2, Tmax=6, Jump=2,
-                CapSet={5}, StartOffsets={0, 1}, timeout=2400)
+MC_HOOKS_T = mc("MC_Hooks_t", NL=3, HookVariants=True, Templates={"B0", "F0", "B1"}, Amts={2, 3}, Prices={2, 3}, MaxBids=2, Tmax=7, Jump=2,
+                CapSet={5}, StartOffsets={0, 1}, MaxAuc=2, CreateUntil=1, timeout=2400)
 TC_EXT_T = mc("TC_Ext_t", Templates={"B5"}, Prices={1, 2}, Amts={2}, MaxBids=3, Tmax=5, Jump=1, CapSet={2, 4}, StartOffsets={0},
               CreateUntil=0, Dur=2, MaxMods=0, timeout=2400)
 TC_BATCH_T = mc("TC_Batch_t", Templates={"B1"}, Prices={1, 2, 3}, Amts={1, 3}, MaxBids=3, Tmax=8, Jump=2, StartOffsets={0, 1}, CreateUntil=1,
@@ -173,11 +173,13 @@ def plan(prop, tier):
         p["lemmas"] = LEMMAS[prop]
     if prop in ("C08", "C13"):
         p["lifecycle"] = True
+    if prop in ("C01", "C03", "C04", "C07", "C09", "C11"):
+        p["events18"] = 40 if tier == "quick" else 1200
     if prop in ("C02", "C07", "C08", "C10", "C12", "C18"):
         p["abci"] = 60 if tier == "quick" else 600
     if tier == "thorough":
         p["gen"] = scale(p.get("gen", []), 10)
-        p["tc_max"] = 10 ** 7
+        p["tc_max"] = 120000
         p["mc"] = [THOROUGH_MC.get(m["name"], m) for m in p.get("mc", [])]
         p["tc"] = [THOROUGH_MC.get(m["name"], m) for m in p.get("tc", [])]
         if "replicas" in p:
